@@ -117,7 +117,12 @@ def check (sha256hex : Bytes → Bytes) (hmac : Bytes → Bytes → Bytes) (look
       if bd ≠ w.boundary then .unmodelled "post-boundary-mismatch"
       else ofVerdict (v4CheckPostSignature hmac (some lookup) (multipartFields w.form))
     | _ =>
-      if hasQuery && qsHas c.qs b!"X-Amz-Signature" then ofVerdict (v4CheckPresignedUrl sha256hex hmac (some lookup) nowNs c)
+      if hasQuery && qsHas c.qs b!"X-Amz-Signature" then
+        match parsePresigned c.qs with
+        | some p =>
+          if sortBytes p.signedHeaders ≠ p.signedHeaders then .unmodelled "presigned-signed-headers-unsorted"
+          else ofVerdict (v4CheckPresignedUrl sha256hex hmac (some lookup) nowNs c)
+        | none => ofVerdict (v4CheckPresignedUrl sha256hex hmac (some lookup) nowNs c)
       else if (getUnique c.hs b!"authorization").isSome then ofVerdict (v4CheckHeaderAuth sha256hex hmac (some lookup) c)
       else .anon
 
